@@ -29,19 +29,21 @@ impl Buf {
 
 /// Canonical encoding of `data[..len]` with first-chunk limit `a` and
 /// later-chunk limit `b`.
-pub fn ref_encode(data: &[u8], len: usize, a: usize, b: usize) -> Buf {
+pub fn ref_encode<const N: usize>(data: &[u8], len: usize, a: usize, b: usize) -> Buf {
+    // N bounds the input length: at most N + 1 chunks of at most N bytes each
+    assert!(len <= N);
     let mut out = Buf::new();
     let mut pos = 0usize;
     let mut max = a;
     let mut first = true;
     // at most len + 1 chunks
     let mut guard = 0;
-    while guard < CAP {
+    while guard < N + 2 {
         guard += 1;
         let mut size = 0usize;
         let mut by_stuff = false;
         let mut scan = 0;
-        while scan < CAP {
+        while scan < N + 1 {
             scan += 1;
             if !(size < max && pos + size < len) {
                 break;
@@ -59,7 +61,7 @@ pub fn ref_encode(data: &[u8], len: usize, a: usize, b: usize) -> Buf {
             out.push((size / RADIX) as u8);
         }
         let mut i = 0;
-        while i < CAP {
+        while i < N {
             if i < size {
                 out.push(data[pos + i]);
             }
@@ -80,7 +82,9 @@ pub fn ref_encode(data: &[u8], len: usize, a: usize, b: usize) -> Buf {
 
 /// Reference decoder: `Some(plain)` exactly for well-formed chunk sequences
 /// that end on a short chunk.
-pub fn ref_decode(enc: &[u8], len: usize, a: usize, b: usize) -> Option<Buf> {
+pub fn ref_decode<const N: usize>(enc: &[u8], len: usize, a: usize, b: usize) -> Option<Buf> {
+    // N bounds the encoded length: at most N chunks of at most N bytes each
+    assert!(len <= N);
     let mut out = Buf::new();
     if len == 0 {
         return None;
@@ -89,7 +93,7 @@ pub fn ref_decode(enc: &[u8], len: usize, a: usize, b: usize) -> Option<Buf> {
     let mut first = true;
     let mut last_short = false;
     let mut guard = 0;
-    while guard < CAP {
+    while guard < N + 1 {
         guard += 1;
         if pos == len {
             break;
@@ -131,7 +135,7 @@ pub fn ref_decode(enc: &[u8], len: usize, a: usize, b: usize) -> Option<Buf> {
             return None; // cut short mid-chunk
         }
         let mut i = 0;
-        while i < CAP {
+        while i < N {
             if i < size {
                 if out.len >= CAP {
                     return None;
